@@ -154,6 +154,21 @@ CHECKS = {
               "guesser's grammar, the scorer's tables and both OMEN loaders, and config.ini must list exactly the files on disk. "
               "Exploration with an exhaustive sub-part."),
         design='4/C07'),
+    'C11': dict(
+        technique="Hypothesis property-based 3-way differential testing (trainer's find_omen_level vs scorer's OmenScorer.parse vs guesser tables + real MarkovCracker membership) on rulesets produced by the real trainer, with generated and mutated candidate strings",
+        text=("Generated training lists (small alphabets, n-gram 2-5, several encodings) are trained; for training passwords, "
+              "generator output and mutated candidates (out-of-alphabet characters at each position, lengths n-1, n, n+1, 21, 22, "
+              "empty) the trainer's level, the scorer's level and the level by the guesser's loaded tables must be the same number "
+              "or all -1; for enumerable levels the string must be emitted by the real Markov generator at exactly that level and no "
+              "other; omen_pws_per_level.txt must equal the tally of trainer levels. Exploration."),
+        design='4/C11'),
+    'C18': dict(
+        technique="Hypothesis property-based testing: saved omen_keyspace.txt / pcfg_omen_prob.txt of really trained rulesets against a count of the real Markov generator's distinct output per level",
+        text=("Generated lists of short passwords over tiny alphabets (dominated by length == n-gram size or by a single length) are "
+              "trained; for every listed level that is small enough to enumerate the real MarkovCracker is run to exhaustion and the "
+              "number of distinct strings must equal the saved keyspace, and the saved level probability must be (count at level / N) "
+              "/ keyspace, with zero-keyspace levels absent. Exploration; larger levels are inconclusive and counted."),
+        design='4/C18'),
 }
 
 NOT_YET = "check not built yet in this round (design exists in DESIGN.md section 4); not claimed until it runs"
